@@ -8,7 +8,7 @@ MATCH = r"match_node_with_env"
 OPS_DECIDED_C04 = "frame law on trait Matcher (None => env unchanged; Some => env exactly the reference env) proved for &T, MatchAll, MatchNone, Op, Or, Not, And, All, Any"
 PROPS = {
     "C01": {
-        "units": [("ops", KINDS), ("rule_core", KINDS + "|do_match|with_"), ("rule", KINDS), ("combined", r"CombinedScan|lemma"), ("pattern", KINDS + "|match_node_impl|match_node_non_recursive"), ("atomic", KINDS), "find_all", ("referent", KINDS + "|eval_"), "traversal", "visit"],
+        "units": [("ops", KINDS), ("rule_core", KINDS + "|do_match|with_"), ("rule", KINDS), ("combined", r"CombinedScan|lemma"), ("pattern", KINDS + "|match_node_impl|match_node_non_recursive"), ("atomic", KINDS), "find_all", ("referent", KINDS + "|eval_"), "traversal", "visit", "scan"],
         "kani": [],
         "decided": ["FindAllNodes::next returns the first remaining node (pre-order) that the matcher matches when tried from an empty environment: the kind filter drops nothing",
                     "Pre::next / Pre::calibrate_for_match (unit traversal): the dfs iterator yields exactly the pre-order of the subtree; calibrating after a match skips exactly the subtree of the matched node",
@@ -99,12 +99,13 @@ PROPS = {
         "assumptions": [],
     },
     "C14": {
-        "units": [("combined", r"MaySuppressed|Suppressions")],
+        "units": [("combined", r"MaySuppressed|Suppressions"), "scan"],
         "kani": [],
         "decided": ["MaySuppressed::suppressed_id: silenced iff a suppression governs the line and lists the rule id or lists nothing; reports that suppression's node id",
                     "Suppressions::collect: an ignore comment alone on its line registers for the NEXT line, a trailing one for its own line, with the ids parsed from its text; other nodes register nothing",
-                    "Suppressions::check_suppression: a finding is governed by the suppression registered for the line where it starts"],
-        "not_decided": ["where comments sit (tree-sitter prev()/start_pos), comment detection by kind name, the unused-suppression bookkeeping inside CombinedScan::scan (HashMap/HashSet + dfs iterator), CLI records"],
+                    "Suppressions::check_suppression: a finding is governed by the suppression registered for the line where it starts",
+                    "CombinedScan::scan (unit scan): a finding of rule R on node N is dropped iff the suppression governing N's line covers R, every other rule still fires on N; the unused suppressions reported are exactly the comment nodes that registered a suppression which silenced nothing"],
+        "not_decided": ["where comments sit (tree-sitter prev()/start_pos), comment detection by kind name, CLI records"],
         "assumptions": ["HashSet<String>::contains(&str) is set membership on the string content"],
     },
     "C15": {
@@ -125,7 +126,7 @@ PROPS = {
         "assumptions": ["offset lies on a char boundary (tree-sitter node ranges)"],
     },
     "C18": {
-        "units": ["cli_print"],
+        "units": ["cli_print", "scan"],
         "kani": [],
         "decided": ["Diff::generate: the CLI's edit (range, text) is NodeMatch::make_edit with the rule's Fixer", "apply_rewrite: the written content == old content with exactly the accepted (ordered, disjoint, in-bounds) ranges substituted (unbounded, Verus)",
                     "process_diffs_interactive: what it hands to apply_rewrite is ordered, disjoint and in bounds (apply_rewrite's precondition is discharged at the call in process_diffs -> rewrite_action); with accept-all (-U) the kept edits are exactly the greedy selection that drops every edit starting before the end of the last kept one; committed_cnt (the 'Applied N changes' number) grows by exactly the number of kept edits",
